@@ -222,7 +222,14 @@ def harness(case, tier):
     for i, q in enumerate(queue):
         got = w.a.recv_bundle_pop_data(q)
         if i < len(exp):
-            c.prove(same_bytes(got, exp[i][1]), 'delivered-data-is-one-transfer[%s]' % st, detail=dict(got=got))
+            # the data of one whole transfer of the model (a peer that reuses a transfer ID makes two transfers of
+            # the same name: either one's data is acceptable, a mixture is not)
+            ok = False
+            for e in exp:
+                if bool(same_bytes(got, e[1])):
+                    ok = True
+                    break
+            c.prove(ok, 'delivered-data-is-one-transfer[%s]' % st, detail=dict(got=got))
 
     # own transfer unaffected
     if own is not None and 'A' not in w.closed_socks and not w.a._in_term and not esc2:
